@@ -5,6 +5,7 @@ import (
 	"sync"
 	"time"
 
+	"github.com/aperturerobotics/util/verifhook"
 	cbackoff "github.com/cenkalti/backoff/v4"
 	"github.com/sirupsen/logrus"
 )
@@ -80,8 +81,11 @@ func NewKeyedWithLogger[K comparable, V any](
 // nil context is valid and will shutdown the routines.
 // if restart is true, all errored routines also restart
 func (k *Keyed[K, V]) SetContext(ctx context.Context, restart bool) {
+	verifhook.Point("keyed.lock", k)
 	k.mtx.Lock()
+	verifhook.Enter(k)
 	k.setContextLocked(ctx, restart)
+	verifhook.Leave(k)
 	k.mtx.Unlock()
 }
 
@@ -117,8 +121,11 @@ func (k *Keyed[K, V]) ClearContext() {
 
 // GetKeys returns the list of keys registered with the Keyed instance.
 func (k *Keyed[K, V]) GetKeys() []K {
+	verifhook.Point("keyed.lock", k)
 	k.mtx.Lock()
+	verifhook.Enter(k)
 	defer k.mtx.Unlock()
+	defer verifhook.Leave(k)
 
 	keys := make([]K, 0, len(k.routines))
 	for k := range k.routines {
@@ -137,8 +144,11 @@ type KeyWithData[K comparable, V any] struct {
 
 // GetKeysWithData returns the keys and the data for the keys.
 func (k *Keyed[K, V]) GetKeysWithData() []KeyWithData[K, V] {
+	verifhook.Point("keyed.lock", k)
 	k.mtx.Lock()
+	verifhook.Enter(k)
 	defer k.mtx.Unlock()
+	defer verifhook.Leave(k)
 
 	out := make([]KeyWithData[K, V], 0, len(k.routines))
 	for k, v := range k.routines {
@@ -154,8 +164,11 @@ func (k *Keyed[K, V]) GetKeysWithData() []KeyWithData[K, V] {
 // If start=true, restarts the routine from any stopped or failed state.
 // Returns if it existed already or not.
 func (k *Keyed[K, V]) SetKey(key K, start bool) (V, bool) {
+	verifhook.Point("keyed.lock", k)
 	k.mtx.Lock()
+	verifhook.Enter(k)
 	defer k.mtx.Unlock()
+	defer verifhook.Leave(k)
 
 	v, existed := k.routines[key]
 	if !existed {
@@ -185,8 +198,11 @@ func (k *Keyed[K, V]) SetKey(key K, start bool) (V, bool) {
 // RemoveKey removes the given key from the set, if it exists.
 // Returns if it existed.
 func (k *Keyed[K, V]) RemoveKey(key K) bool {
+	verifhook.Point("keyed.lock", k)
 	k.mtx.Lock()
+	verifhook.Enter(k)
 	defer k.mtx.Unlock()
+	defer verifhook.Leave(k)
 
 	v, existed := k.routines[key]
 	if existed {
@@ -198,8 +214,11 @@ func (k *Keyed[K, V]) RemoveKey(key K) bool {
 // SyncKeys synchronizes the list of running routines with the given list.
 // If restart=true, restarts any routines in the failed state.
 func (k *Keyed[K, V]) SyncKeys(keys []K, restart bool) (added, removed []K) {
+	verifhook.Point("keyed.lock", k)
 	k.mtx.Lock()
+	verifhook.Enter(k)
 	defer k.mtx.Unlock()
+	defer verifhook.Leave(k)
 
 	if k.ctx != nil && k.ctx.Err() != nil {
 		k.ctx = nil
@@ -238,8 +257,11 @@ func (k *Keyed[K, V]) SyncKeys(keys []K, restart bool) (added, removed []K) {
 
 // GetKey returns the value for the given key and existed.
 func (k *Keyed[K, V]) GetKey(key K) (V, bool) {
+	verifhook.Point("keyed.lock", k)
 	k.mtx.Lock()
+	verifhook.Enter(k)
 	defer k.mtx.Unlock()
+	defer verifhook.Leave(k)
 
 	v, existed := k.routines[key]
 	if !existed {
@@ -259,8 +281,11 @@ func (k *Keyed[K, V]) GetKey(key K) (V, bool) {
 //
 // If len(conds) == 0, always resets the given key.
 func (k *Keyed[K, V]) ResetRoutine(key K, conds ...func(K, V) bool) (existed bool, reset bool) {
+	verifhook.Point("keyed.lock", k)
 	k.mtx.Lock()
+	verifhook.Enter(k)
 	defer k.mtx.Unlock()
+	defer verifhook.Leave(k)
 
 	return k.resetRoutineLocked(key, conds...)
 }
@@ -274,8 +299,11 @@ func (k *Keyed[K, V]) ResetRoutine(key K, conds ...func(K, V) bool) (existed boo
 //
 // If len(conds) == 0, always resets the keys.
 func (k *Keyed[K, V]) ResetAllRoutines(conds ...func(K, V) bool) (resetCount, totalCount int) {
+	verifhook.Point("keyed.lock", k)
 	k.mtx.Lock()
+	verifhook.Enter(k)
 	defer k.mtx.Unlock()
+	defer verifhook.Leave(k)
 
 	totalCount = len(k.routines)
 	for key := range k.routines {
@@ -328,8 +356,11 @@ func (k *Keyed[K, V]) resetRoutineLocked(key K, conds ...func(K, V) bool) (exist
 //
 // If len(conds) == 0, always resets the given key.
 func (k *Keyed[K, V]) RestartRoutine(key K, conds ...func(K, V) bool) (existed bool, reset bool) {
+	verifhook.Point("keyed.lock", k)
 	k.mtx.Lock()
+	verifhook.Enter(k)
 	defer k.mtx.Unlock()
+	defer verifhook.Leave(k)
 
 	return k.restartRoutineLocked(key, conds...)
 }
@@ -339,8 +370,11 @@ func (k *Keyed[K, V]) RestartRoutine(key K, conds ...func(K, V) bool) (existed b
 //
 // If len(conds) == 0, always resets the keys.
 func (k *Keyed[K, V]) RestartAllRoutines(conds ...func(K, V) bool) (restartedCount, totalCount int) {
+	verifhook.Point("keyed.lock", k)
 	k.mtx.Lock()
+	verifhook.Enter(k)
 	defer k.mtx.Unlock()
+	defer verifhook.Leave(k)
 
 	totalCount = len(k.routines)
 	for key := range k.routines {
